@@ -18,7 +18,7 @@ package b1t6
 //@ spec validpair(s string, j int) bool = -128 <= tval(s[j]) + 27*tval(s[j+1]) && tval(s[j]) + 27*tval(s[j+1]) <= 127
 
 //@ func EncodedLen(n int) (r int)
-//@   requires 0 <= n && n <= 1<<59
+//@   requires 0 <= n && n <= (1<<63-1)/6
 //@   ensures  r == 6*n
 //@   panics   never
 
